@@ -427,7 +427,10 @@ impl<'a> OpenResponsesSsePipe<'a> {
                         if err.error_len().is_none() {
                             break;
                         }
-                        utf8_buf.remove(0);
+                        // Drop the whole invalid sequence (as the `valid > 0` branch does), so the
+                        // number of replacement characters does not depend on the chunking.
+                        let invalid_len = err.error_len().unwrap_or(1).min(utf8_buf.len());
+                        utf8_buf.drain(..invalid_len);
                         saw_done = self.push_sse_str("\u{FFFD}").await;
                         if saw_done {
                             utf8_buf.clear();
